@@ -24,15 +24,16 @@ const (
 )
 
 type Thread struct {
-	Name    string
-	s       *Sched
-	state   tstate
-	wake    chan struct{}
-	nspawn  int
+	Name     string
+	s        *Sched
+	state    tstate
+	wake     chan struct{}
+	nspawn   int
 	nameHash uint64
-	trace   uint64 // digest of the thread's local history (labels passed, results of blocking/shim operations)
-	steps   int
-	waiting string
+	trace    uint64 // digest of the thread's local history (labels passed, results of blocking/shim operations)
+	steps    int
+	waiting  string
+	daemon   bool
 }
 
 type abortT struct{}
@@ -69,11 +70,12 @@ type Sched struct {
 	Fine     bool
 	stateFns []func() string
 	// Observations written by harness code (only from registered threads).
-	Obs      []string
-	Switches int
-	frozen   bool
-	onPoint  func(s *Sched, p *Point) bool // return false to cut the execution here (state already explored)
-	Cut      bool
+	Obs         []string
+	Switches    int
+	frozen      bool
+	startWaiter *Thread                       // main, while the daemons of instrumented packages run to their first wait
+	onPoint     func(s *Sched, p *Point) bool // return false to cut the execution here (state already explored)
+	Cut         bool
 }
 
 var goids sync.Map // goroutine id -> *Thread
@@ -150,6 +152,26 @@ func (s *Sched) fail(kind, msg string) {
 	}
 }
 
+// onlyDaemonsLeft: every thread that is not finished is a daemon (a goroutine the package under check
+// starts in init() and that lives as long as the process): waiting for work for ever is its normal state.
+func (s *Sched) onlyDaemonsLeft() bool {
+	for _, x := range s.order {
+		if x.state != done && !x.daemon {
+			return false
+		}
+	}
+	return true
+}
+
+func (s *Sched) daemonsParked() bool {
+	for _, x := range s.order {
+		if x.daemon && x.state == runnable {
+			return false
+		}
+	}
+	return true
+}
+
 // abortAll wakes every parked thread so that it unwinds.
 func (s *Sched) abortAll(self *Thread) {
 	if s.aborted {
@@ -190,7 +212,7 @@ func (s *Sched) point(t *Thread, label string) {
 				who = append(who, x.Name+" waiting for "+x.waiting)
 			}
 		}
-		if alive {
+		if alive && !s.onlyDaemonsLeft() {
 			s.fail("deadlock", "no enabled thread: "+strings.Join(who, "; "))
 			s.abortAll(t)
 			if t.state != done {
@@ -198,7 +220,10 @@ func (s *Sched) point(t *Thread, label string) {
 			}
 			return
 		}
-		// everything finished
+		// everything finished (daemon threads still waiting for work are unwound quietly)
+		if alive {
+			s.abortAll(t)
+		}
 		return
 	}
 	next := en[0]
@@ -279,6 +304,9 @@ func Sleep(_ any) { Sync("sleep") }
 func (t *Thread) Block(why string) {
 	t.state = blocked
 	t.waiting = why
+	if t.daemon && t.s.startWaiter != nil && t.s.daemonsParked() {
+		t.s.startWaiter.Unblock()
+	}
 	t.s.point(t, "block:"+why)
 	t.waiting = ""
 }
@@ -337,6 +365,9 @@ func (s *Sched) spawn(name string, f func()) *Thread {
 				return
 			}
 			t.state = done
+			if t.daemon && s.startWaiter != nil && s.daemonsParked() {
+				s.startWaiter.Unblock()
+			}
 			defer func() { recover() }() // an abort raised while handing off after completion
 			s.point(t, "exit")
 		}()
@@ -360,7 +391,26 @@ type Config struct {
 
 // Run executes body as thread "main" under the scheduler and returns when every
 // thread has finished or the execution was aborted.
+// Resets put the package-level variables of instrumented files back to their initial values; they run
+// before every execution, so that each execution starts from the process-initial state.
+var resets []func()
+
+// Daemons are goroutines that instrumented packages start from init(): they are started again as
+// scheduler threads at the beginning of every execution (RegisterDaemon replaces the go statement).
+var daemons []func()
+
+func RegisterDaemon(f func()) { daemons = append(daemons, f) }
+
+func RegisterReset(f func()) { resets = append(resets, f) }
+
+// HasSharedState: instrumented code has package-level variables (executions must not run in parallel
+// in one process).
+func HasSharedState() bool { return len(resets) > 0 || len(daemons) > 0 }
+
 func Run(cfg Config, setup func(s *Sched), body func()) *Sched {
+	for _, f := range resets {
+		f()
+	}
 	s := &Sched{threads: map[string]*Thread{}, prefix: cfg.Prefix, MaxSteps: cfg.MaxSteps, Keys: cfg.Keys, Fine: cfg.Fine, onPoint: cfg.OnPoint}
 	if s.MaxSteps == 0 {
 		s.MaxSteps = 20000
@@ -368,7 +418,26 @@ func Run(cfg Config, setup func(s *Sched), body func()) *Sched {
 	if setup != nil {
 		setup(s)
 	}
-	t := s.spawn("main", body)
+	run := body
+	if len(daemons) > 0 {
+		run = func() {
+			// start-up of the daemons is not explored: each runs (in name order) until it waits for work
+			me := Current()
+			prev := s.frozen
+			s.frozen = true
+			for i, d := range daemons {
+				s.spawn(fmt.Sprintf("daemon%d", i), d).daemon = true
+			}
+			for !s.daemonsParked() {
+				s.startWaiter = me
+				me.Block("daemons starting")
+			}
+			s.startWaiter = nil
+			s.frozen = prev
+			body()
+		}
+	}
+	t := s.spawn("main", run)
 	s.cur = t
 	t.wake <- struct{}{}
 	s.wg.Wait()
